@@ -198,7 +198,7 @@ func runC11(c *core.Ctx, crashes bool) {
 		}
 	}
 
-	steps := 60 + ch.Int(80)
+	steps := (60 + ch.Int(80)) * c.Scale
 	for i := 0; i < steps; i++ {
 		c.Step("c11")
 		switch ch.Pick([]int{30, 45, 8, 7, 10}) {
